@@ -81,9 +81,9 @@ Proof. exact elements_agree. Qed.
 
 (* THE LIST-LEVEL ROUND TRIP FOR EVERY OPTION RECORD (compression on or off,
    any line length, precision, column): for lists of int32/int64/char values,
-   true/false/nil/inf, strings and quoted symbols (goodc: integers within half
-   of their type's range so that no run or span wraps - findings D26/D27 -,
-   strings/symbols/chars without '.' - finding D28 -; floats, plain symbols,
+   true/false/nil/inf, strings and quoted symbols (goodc: the FULL int32/int64
+   range since the range_step_fits fix; strings/symbols/chars without '.' -
+   finding D28 -; floats, plain symbols,
    blobs, MIDI, colours, arrays and time tags are outside), the returned count
    is the text length, the checker accepts with the number of slots the scanner
    then writes, the scanner consumes the whole text, and the slots expand to
@@ -97,6 +97,18 @@ Theorem C10_roundtrip_any_partial : forall (dec2f dec2d : list Z -> Z) o vs text
     scan_arg_vals dec2f dec2d text (Z.of_nat (length slots)) = Ok (slots, []) /\
     expand slots = Some vs.
 Proof. exact roundtrip_any. Qed.
+
+(* the same for whole messages (rtosc_print_message / count_of_msg /
+   rtosc_scan_message), compression on or off *)
+Theorem C10_message_any_partial : forall (dec2f dec2d : list Z -> Z) o addr vs text w,
+  good_addr addr -> Forall goodc vs -> Z.of_nat (length vs) < 2 ^ 31 ->
+  print_message o addr vs 0 = Some (text, w) ->
+  exists slots,
+    w = len text /\
+    count_printed_arg_vals_of_msg dec2f dec2d text = Ok (true, Z.of_nat (length slots)) /\
+    scan_message dec2f dec2d text (Z.of_nat (length slots)) = Ok (addr, slots, []) /\
+    expand slots = Some vs.
+Proof. exact message_roundtrip_any. Qed.
 
 (* non-vacuity: a list with a constant run, an elided and an explicit run *)
 Theorem C10_roundtrip_any_nonvacuous :
@@ -146,6 +158,17 @@ Theorem C10_roundtrip_refuted_D10 :
   (exists text w, print_arg_vals opts80 [VSym kw_true] 0 = Some (text, w) /\
      scan_arg_vals no_oracle no_oracle text 1 = Ok ([VSym kw_true], [])).
 Proof. exact D10_witness. Qed.
+
+(* D26/D27 (fixed in the repository): the pre-fix conversion compressed a run
+   that wraps around and a run whose span does not fit the type *)
+Theorem C10_range_refuted_D26 :
+  (exists c, convert_to_range_D26 opts_c wrap_run 6 = CYes c 6) /\
+  convert_to_range opts_c wrap_run 6 = CNo /\
+  (exists c, convert_to_range_D26 opts_c span_run 8 = CYes c 8) /\
+  convert_to_range opts_c span_run 8 = CNo /\
+  (exists text w, print_arg_vals opts_c wrap_run 0 = Some (text, w) /\
+     scan_arg_vals no_oracle no_oracle text 6 = Ok (wrap_run, [])).
+Proof. exact D26_witness. Qed.
 
 (* the hypotheses are satisfiable by a list that needs a line break, a string
    broken in two and an escaped quote *)
